@@ -335,6 +335,64 @@ def template(cls, name):
     return cls()
 
 
+def ctor_kwargs(name):
+    """keyword arguments with which `template` builds the class (the ones that have no default)"""
+    if name == 'Node':
+        return {'name': 'n', 'type': 'TERMINAL', 'value': np.array([1.0])}
+    if name == 'Function':
+        return {'pointer': f1}
+    if name == 'WeightedFunction':
+        return {'functions': [f1], 'weights': [1.0]}
+    if name == 'TreeSpace':
+        return dict(n_trees=1, n_terminals=1, n_variables=1, n_iterations=1, min_depth=1, max_depth=2, functions=['SUM'],
+                    lower_bound=[0], upper_bound=[1])
+    if name == 'Opytimizer':
+        return {'space': make_obj('Space', True), 'optimizer': make_obj('Optimizer', True), 'function': make_obj('Function', True)}
+    return {}
+
+
+CTOR_PROBES = [('none', lambda: None), ('str', lambda: 'x'), ('float', lambda: 3.5), ('tuple', lambda: (f1, f1)), ('emptylist', lambda: []),
+               ('zero', lambda: 0), ('neg', lambda: -1), ('true', lambda: True), ('generator', lambda: (f for f in (f1, f1))), ('dict', lambda: {}),
+               ('emptytuple', lambda: ())]
+
+
+def outcome(f):
+    try:
+        f()
+    except Exception as ex:  # noqa: BLE001
+        k = hlib.exc_kind(ex)
+        return k if k in ('TypeError', 'ValueError', 'SizeError', 'ArgumentError', 'BuildError') else 'Untyped:' + type(ex).__name__
+    return 'ok'
+
+
+def ctor_param_cases(c, cls, gs, only=None):
+    """A value that the SETTER of a validated attribute rejects with a typed error must be rejected in the same way when it is handed to
+    the constructor parameter of the same name (the constructor routes its arguments through the setters).  Not judged: parameters the
+    constructor never reads."""
+    out = []
+    if not c.get('init_params'):
+        return out
+    used = set(c.get('init_reads') or [])
+    gnames = {g['attr'] for g in gs}
+    for pn, _d in c['init_params']:
+        if pn not in gnames or (c.get('init_reads') is not None and pn not in used):
+            continue
+        for tag, mk in CTOR_PROBES:
+            if only and (only.get('param') != pn or only.get('probe') != tag):
+                continue
+            try:
+                tpl = template(cls, c['name'])
+            except Exception:  # noqa: BLE001
+                break
+            ks = outcome(lambda: setattr(tpl, pn, mk()))
+            if ks == 'ok' or ks.startswith('Untyped'):
+                continue
+            kc = outcome(lambda: cls(**dict(ctor_kwargs(c['name']), **{pn: mk()})))
+            if kc != ks:
+                out.append({'cls': c['name'], 'param': pn, 'probe': tag, 'setter': ks, 'ctor': kc})
+    return out
+
+
 def fresh(tpl):
     o = copy.copy(tpl)                    # new instance, same attribute objects
     o.__dict__ = dict(tpl.__dict__)
@@ -690,6 +748,10 @@ def main():
                 res['ctor'].append({'cls': c['name'], 'out': hlib.exc_kind(ex), 'msg': repr(ex)[:200]})
             hlib.emit(res)
             return
+        if only.get('kind') == 'ctorparam':
+            res['ctorparam'] = ctor_param_cases(c, cls, guards_of(c['name']), only)
+            hlib.emit(res)
+            return
         if only.get('kind') == 'hyper':
             try:
                 cls(hyperparams=make(only['spec']))
@@ -723,6 +785,8 @@ def main():
         except Exception as ex:  # noqa: BLE001
             res['errors'].append({'cls': c['name'], 'msg': 'cannot import the class: %r' % ex})
             continue
+        res.setdefault('ctorparam', [])
+        res['ctorparam'] += ctor_param_cases(c, cls, gs)
         try:
             tpl = template(cls, c['name'])
         except Exception as ex:  # noqa: BLE001
